@@ -54,6 +54,10 @@ def _trace_and_judge(ctx, rep, op, n_prior, base, model_ok):
     pre_files = set(reader.DirStore(path).list()) if os.path.isdir(path) else set()
     env_extra = None
     real_op = op
+    if op.startswith("append@env:"):
+        # an environment switch of the library pinned to a value that READS as "off": nothing about durability may depend on it
+        name_, val_ = op[len("append@env:"):].split("=", 1)
+        env_extra, real_op = {name_: val_}, "append"
     if op == "append@tmpfs":
         # the process's temp directory on ANOTHER filesystem than the table (a tmpfs /tmp is common): staging a file there and moving
         # it in is a copy, not a rename
@@ -240,6 +244,41 @@ def _fsync_faults(ctx, rep, base):
                 except reader.Broken as e:
                     rep.violate("C16:pointer-names-missing-files-after-a-directory-fsync-failure",
                                 f"{op}: directory fsync #{k} failed (EIO) after its rename; the operation {'raised ' + raised if raised else 'succeeded'}; now: {e}", case)
+                # …and the NEXT commit through the same handle is as durable as any other: one transient failure must not switch
+                # directory fsyncs off for the life of the object. Every directory a file is renamed into is fsynced afterwards.
+                renamed_into, synced = [], []
+                real_replace, real_rename = os.replace, os.rename
+
+                def rec_replace(a_, b_, *x_, **y_):
+                    r_ = real_replace(a_, b_, *x_, **y_)
+                    renamed_into.append(os.path.dirname(os.path.realpath(b_)))
+                    synced.append(("rename", renamed_into[-1]))
+                    return r_
+
+                def rec_fsync(fd):
+                    try:
+                        if _stat.S_ISDIR(os.fstat(fd).st_mode):
+                            synced.append(("fsyncdir", os.path.realpath(os.readlink(f"/proc/self/fd/{fd}"))))
+                    except OSError:
+                        pass
+                    return real(fd)
+                os.replace, os.rename, os.fsync = rec_replace, rec_replace, rec_fsync
+                try:
+                    t.append_records(tablekit.rows(1, start=900))
+                    follow = "ok"
+                except BaseException as e:      # noqa: BLE001
+                    follow = type(e).__name__
+                finally:
+                    os.replace, os.rename, os.fsync = real_replace, real_rename, real
+                if follow == "ok":
+                    unsynced = []
+                    for i_, (kind_, d_) in enumerate(synced):
+                        if kind_ == "rename" and ("fsyncdir", d_) not in synced[i_ + 1:]:
+                            unsynced.append(os.path.relpath(d_, os.path.realpath(path)))
+                    if unsynced:
+                        rep.violate("C16:directory-fsync-skipped-after-an-earlier-failure",
+                                    f"{op}: directory fsync #{k} failed once (EIO); the NEXT commit through the same handle renamed files into "
+                                    f"{sorted(set(unsynced))} without fsyncing those directories afterwards", case)
                 shutil.rmtree(path, ignore_errors=True)
                 k += 1
                 continue
@@ -405,8 +444,17 @@ def run(ctx, model_ok):
     base = scratch_dir("c16-")
     try:
         priors = [0, 1, 3] if not ctx.thorough else list(range(0, 9))
-        for op in ("create", "append", "append2", "delfiles", "expire", "delsnap", "gc", "recreate", "append@tmpfs"):
-            for n in (priors if op not in ("create", "recreate", "append@tmpfs") else ([0] if op == "create" else [1])):
+        import glob
+        import re
+        from ..util import REPO
+        env_names = set()
+        for f_ in glob.glob(os.path.join(REPO, "src", "datashard", "*.py")):
+            env_names.update(re.findall(r"DATASHARD_[A-Z0-9_]+", open(f_).read()))
+        env_ops = [f"append@env:{n_}={v_}" for n_ in sorted(env_names) if not n_.startswith("DATASHARD_S3_") and n_ != "DATASHARD_STORAGE_TYPE"
+                   for v_ in ("0", "false", "no")]
+        rep.extra["environment_switches_pinned_off"] = sorted({o_.split(":")[1].split("=")[0] for o_ in env_ops})
+        for op in ["create", "append", "append2", "delfiles", "expire", "delsnap", "gc", "recreate", "append@tmpfs"] + env_ops:
+            for n in (priors if op not in ("create", "recreate", "append@tmpfs") and not op.startswith("append@env:") else ([0] if op == "create" else [1])):
                 _trace_and_judge(ctx, rep, op, n, base, model_ok)
         _shared_handle_overlap(ctx, rep, base, model_ok)
         _fsync_faults(ctx, rep, base)
